@@ -185,6 +185,15 @@ def case_plain(R, res):
     got = tuner_utils.convert_to_metrics_dict([{"score": v, "acc": 1.0} for v in xs], obj)
     if abs(got["score"] - sum(xs) / len(xs)) > 1e-12 or tuner_utils.get_best_step(xs, obj) != 0:
         raise Violation("C18", f"list of dict results {xs} is not averaged", {"tag": "convert-list"})
+    # an execution whose objective is NaN makes the mean over executions NaN (and the trial INVALID): it must not be dropped
+    ys = [R.choice([0.0, 1.0, 2.0, 4.0]) for _ in range(R.randint(1, 3))]
+    ys.insert(R.randrange(len(ys) + 1), float("nan"))
+    for form in ("float", "dict", "mixed"):
+        rs = [y if form == "float" or (form == "mixed" and i % 2 == 0) else {"score": y, "acc": 1.0} for i, y in enumerate(ys)]
+        got = tuner_utils.convert_to_metrics_dict(rs, obj)
+        if got["score"] == got["score"]:
+            raise Violation("C18", f"executions {ys} (one objective is NaN) are converted to objective {got['score']}: the mean over ALL executions is NaN",
+                            {"tag": "nan-execution-dropped"})
     res.hist["plain"] += 1
 
 
